@@ -175,10 +175,15 @@ def composition_clause(model, rep, funcs):
         rep.instance("F.compose", f.loc())
         M = Matcher(f)
         b = {}
-        ok, why = M.all_of(["if inverse:\n    $mat = self._rotator.inv().as_matrix()\nelse:\n    $mat = self.matrix()",
-                            "$rm[:, :3, :3] = $mat", "$rm[:, 3, 3] = 1.0", "$rm = np.zeros(($n, 4, 4), ...)",
-                            "$t0 = np.stack([np.eye(4, ...)] * $n, axis=0)", "$t1 = np.stack([np.eye(4, ...)] * $n, axis=0)",
-                            "$t0[:, :3, 3] = dst", "$t1[:, :3, 3] = -src", "return np.einsum('nij,njk,nkl->nil', $t0, $rm, $t1)"], b)
+        ok, why = False, ""
+        for eyes in ("np.stack([np.eye(4, ...)] * $n, axis=0)", "np.tile(np.eye(4, ...), ($n, 1, 1))"):
+            b = {}
+            ok, why = M.all_of(["if inverse:\n    $mat = self._rotator.inv().as_matrix()\nelse:\n    $mat = self.matrix()",
+                                "$rm[:, :3, :3] = $mat", "$rm[:, 3, 3] = 1.0", "$rm = np.zeros(($n, 4, 4), ...)",
+                                f"$t0 = {eyes}", f"$t1 = {eyes}",
+                                "$t0[:, :3, 3] = dst", "$t1[:, :3, 3] = -src", "return np.einsum('nij,njk,nkl->nil', $t0, $rm, $t1)"], b)
+            if ok:
+                break
         ok2 = ok and src_differs(b)
         rep.ob("F", f.anchor, "affine_matrix = T(dst) R T(-src) per molecule, with R inverted exactly when inverse=True", bool(ok and ok2), why, node=f.node, fn=f,
                clause="2 composition", stmt="def affine_matrix")
@@ -304,13 +309,18 @@ def degenerate_clause(model, rep, funcs):
         a = fm[0].args[0] if fm[0].args else None
         MG = Matcher(g)
         bb: dict = {}
-        ok, det = MG.all_of(["$y0 = _normalize(np.atleast_2d(y))", "$z0 = _normalize($z0)", "return Rotation.from_matrix(np.stack([$z0, $y0, $x0], axis=2))"], bb)
-        if not ok:
-            bb = {}
-            ok, det = MG.all_of(["$y0 = _normalize(np.atleast_2d(y))", "$z0 = _normalize($z0)", "return Rotation.from_matrix(np.stack([$z0, $y0, $x0], axis=-1))"], bb)
+        ok, det = False, ""
+        for axis_ in ("2", "-1"):
+            for zform in ("$z0 = _normalize($z0)", "$z0 = _normalize(_extract_orthogonal($y0, $$v))"):
+                bb = {}
+                ok, det = MG.all_of(["$y0 = _normalize(np.atleast_2d(y))", zform, f"return Rotation.from_matrix(np.stack([$z0, $y0, $x0], axis={axis_}))"], bb)
+                if ok:
+                    break
+            if ok:
+                break
         okx = bool(ok) and (MG.has("$x0 = -np.cross($y0, $z0, axis=1)", bb) or MG.has("$x0 = np.cross($z0, $y0, axis=1)", bb))
         branches = [n for n in walk_no_nested(g.node) if isinstance(n, ast.If) and ("np.all" in norm_src(n.test) or "np.any" in norm_src(n.test))]
-        orth = bool(ok) and MG.count("$z0 = _extract_orthogonal($y0, $$v)", bb) >= 1
+        orth = bool(ok) and (MG.count("$z0 = _extract_orthogonal($y0, $$v)", bb) >= 1 or MG.count("$z0 = _normalize(_extract_orthogonal($y0, $$v))", bb) >= 1)
         ok = bool(ok and okx and not branches and orth)
         det = (det + "; " if det else "") + f"matrix = {norm_src(a)[:80] if a is not None else None}; x = -cross(y, z): {okx}; batch-level branches: {len(branches)}; z orthogonalised against y: {orth}"
     rep.ob("S16", g.anchor, "the rotation is built row-wise from the matrix whose columns are the target z, y, x axes (x = -cross(y, z) in z,y,x order); "
